@@ -114,17 +114,26 @@ type childState struct {
 	hashes   map[uint64]struct{}
 	samples  []json.RawMessage
 	incon    map[string]int64
+	maxes    map[string]int64
 	viol     []Violation
 	nsamples int
 }
 
 func newChildState() *childState {
 	return &childState{counters: map[string]int64{}, seen: map[string]map[string]int64{},
-		hashes: map[uint64]struct{}{}, incon: map[string]int64{}}
+		hashes: map[uint64]struct{}{}, incon: map[string]int64{}, maxes: map[string]int64{}}
 }
 
 // Count adds to a named counter reported in evidence.
 func (c *Ctx) Count(name string, n int64) { c.w.counters[name] += n }
+
+// SetMax records the maximum of a named observation (reported in evidence
+// under "maxima").
+func (c *Ctx) SetMax(name string, v int64) {
+	if old, ok := c.w.maxes[name]; !ok || v > old {
+		c.w.maxes[name] = v
+	}
+}
 
 // Seen records a value of a coverage category (distinct values and their
 // frequencies are reported in evidence). Keep cardinality small.
